@@ -538,8 +538,13 @@ def policy(repo, tier):
       f"{cm_key[1] if cm_key else '?'}: {as_with}/{len(sites_cm)} uses are with-items", PDF, definite=False)
 
     # ---- foreign objects (other libraries, the interpreter): who mutates them, on whose behalf (root = where the object is named)
+    # process entry points (modules with an `if __name__ == "__main__"` guard): what a command-line front end does to ITS process
+    # before / after calling the library is not the library's extraction code
+    script_mods = {rel for rel, m in mods.items() if any(isinstance(n, ast.If) and "__name__" in ast.unparse(n.test) and "__main__" in ast.unparse(n.test) for n in m.tree.body)}
     xm = []
     for e in an.xmuts():
+        if e["fn"][0] in script_mods and not O.callers(an).get(e["fn"]):
+            continue
         fn = an.fns[e["fn"]]
         recv = O.receiver_of(e["node"], lambda t: ("X:" + e["state"]) in an.L(fn, t, e["node"]))
         roots = O.origin_roots(an, fn, recv) if recv is not None else [fn]
@@ -835,6 +840,8 @@ def policy(repo, tier):
     sites_s = []
     for (rel, q), afn in sorted(an.fns.items()):
         imp = an.imports[rel]
+        if rel in script_mods and not O.callers(an).get((rel, q)):
+            continue
 
         def origin(e, afn=afn, imp=imp):
             """dotted origin of an attribute chain whose root is an imported name ('' otherwise)"""
